@@ -94,6 +94,15 @@ Qed.
 
 End Finite.
 
+(* event_callback and persistence take effect through Gateway.alert independently:
+   the callback is invoked iff one is configured; with persistence on every alert
+   marks the network as changed (so the next save writes it), with or without a
+   callback; without persistence nothing is marked *)
+Lemma alert_effect (has_callback dirty : bool) :
+  alert_model has_callback true dirty = (has_callback, true)
+  /\ alert_model has_callback false dirty = (has_callback, dirty).
+Proof. destruct has_callback, dirty; vm_compute; split; reflexivity. Qed.
+
 (* every keyword used by README.md / the example scripts is a documented option *)
 Lemma examples_use_documented_options : examples_documented = true.
 Proof. vm_compute. reflexivity. Qed.
